@@ -12,7 +12,7 @@ CHECKS = {
          "Every recorded result of the plain entry points is compared by TLC, pair by pair on every valid colour, with the denotation computed from the specification's own transition system."),
  "C02": ("TLA+ reference semantics with wild-cards/domains; trace validation of extended entry points (Trace_Sem 'denote' + README equivalences 'equal')",
          "Extended formulae with colour-dependent, empty and nested domains are judged against Hctl.Sat; both sides of the README equivalences are evaluated through the API and judged equal and correct."),
- "C03": ("trace validation of every kind of call on constrained networks (Trace_Sem 'unit'); valid colours computed by BoolNet.tla",
+ "C03": ("trace validation of every kind of call on constrained networks (Trace_Sem 'unit'); valid colours computed by BoolNet.tla; primitive-level trace validation of every symbolic primitive on arbitrary relations against its set-level contract (Trace_Rel over Rel.tla; drift = NOTE)",
          "TLC decides result <= universe(valid colours) and no dependence on auxiliary variables for every recorded call."),
  "C04": ("TLC model checking of the evaluator state machine with cache / counters / scopes (Evaluator.tla, MC_Evaluator: BatchTransparent, CacheSound, housekeeping, liveness); step-level validation of hook traces against the model (Trace_Eval); trace validation of batches vs single vs sharing-disabled evaluation (Trace_Sem 'equal')",
          "Batches with forced overlap up to renaming, inside/outside domain scopes, permuted and repeated, with and without progress observer; TLC judges equality position by position."),
@@ -28,12 +28,12 @@ CHECKS = {
          "EW/AW results judged against E[a U b] or EG a / not E[not b U (not a and not b)] computed by TLC."),
  "C14": ("API pipeline outcome (ok / err / panic) judged by TLC: the specification lexes and parses the recorded characters (Syntax.tla) and decides ShouldErr (binding, propositions, context labels, nesting depth vs k) (Trace_Sem 'api', 'apistr')",
          "Every string entry point under catch_unwind on valid formulae with injected defects, grammar-mutated, token-soup and unicode strings, partial context maps (sets also outside the valid universe), k = 0..3."),
- "C15": ("trace validation across k = depth..depth+2, sanitised vs raw (Trace_Sem 'equal','canon')",
+ "C15": ("trace validation across k = depth..depth+2 (uniform and per-variable), plain and custom unit sets, sanitised vs raw (Trace_Sem 'equal','canon')",
          "All variants must give the same explicit set; sanitised BDDs must live in the canonical variable set and intersect with a plain graph's unit set."),
  "C18": ("trace validation of unsafe_ex vs dirty evaluation; antecedent (fragment / no steady state) decided by TLC (Trace_Sem 'unsafe')",
          "Equality required exactly when the specification says loops cannot matter."),
- "C20": ("trace validation: colour slice of the parametrised result vs result on the network instantiated by the harness vs Sat in that colour (Trace_Sem 'slice')",
-         "All colours of small networks; instantiation is done from the truth-table bits, independent of the library's witness picker."),
+ "C20": ("trace validation: colour slice of the parametrised result vs result on the network instantiated by the harness vs Sat in that colour (Trace_Sem 'slice'); the same comparison as BDD-level facts judged by TLC on networks with 2^60+ coloured states (Trace_Slice)",
+         "All colours of small networks; a few colours of networks with ~30 free constants; instantiation is done from the truth-table bits, independent of the library's witness picker."),
 }
 SYN_NOTE = ("Trusted: TLC; character classes are Rust's char::is_alphanumeric / is_whitespace as recorded by the harness. "
             "The lexical conventions the README leaves open are fixed in the header of spec/Syntax.tla. Bounded enumeration plus seeded random inputs.")
@@ -51,7 +51,7 @@ CLI_NOTE = ("Trusted: TLC; the network parsers of biodivine-lib-param-bn; BDD te
             "(observed only through reloaded sets); stdout is split into lines mechanically. Small networks, seeded inputs.")
 CLI = {
  "C16": ("archive as a map in TLA+ (Trace_Arch.RoundTrip); trace validation of build_result_archive -> zip directory -> model re-parse -> load_bdd_bundle, explicit sets before/after, wild-card probe",
-         "Label->set maps incl. empty, full, beyond-unit and result sets, on aeon / bnet / sbml inputs, k = 0..2; reloaded sets, entry list, formula list and model judged by TLC."),
+         "Label->set maps incl. empty, full, beyond-unit and result sets, on aeon / bnet / sbml inputs, k = 0..2, fresh paths and paths holding an older larger archive; reloaded sets, entry list, formula list and model judged by TLC."),
  "C19": ("input/output relation of the converter in TLA+ (Converter.Related) evaluated by TLC on recorded runs of the binary (Trace_Conv); the Shannon-expansion algorithm model-checked against completeness for arity 0..3 (MC_Converter)",
          "For each target TLC enumerates every valuation of the fresh constants and compares the set of truth tables with the set of instantiations of the input function; inputs stay inputs, no other targets, no crash."),
  "C17": ("state machine of one tool run in TLA+ (Cli.tla), model-checked over a small input space (MC_Cli: InOrder, FailQuiet, Complete, termination); path-wise trace validation by TLC of the binary's stdout lines, exit status and -o archive against it (Trace_Cli.tla), reference sets from the library API",
